@@ -170,6 +170,7 @@
 ;@ghost db.redeemedtotal Int
 ;@ghost db.faults Int
 ;@monotone db.faults
+;@grows db.spent db.sig db.mq db.melt
 (declare-datatypes ((SigRow 0)) (((mk.SigRow (SigRow.Amount Int) (SigRow.C_ Str) (SigRow.Id Str) (SigRow.E Str) (SigRow.S Str)))))
 (define-fun rowOf ((p cashu.Proof)) mint/storage.DBProof (mk.mint/storage.DBProof (cashu.Proof.Amount p) (cashu.Proof.Id p) (cashu.Proof.Secret p) (Yof (cashu.Proof.Secret p)) (cashu.Proof.C p) (cashu.Proof.Witness p) str.empty))
 (define-fun pendRowOf ((p cashu.Proof) (q Str)) mint/storage.DBProof (mk.mint/storage.DBProof (cashu.Proof.Amount p) (cashu.Proof.Id p) (cashu.Proof.Secret p) (Yof (cashu.Proof.Secret p)) (cashu.Proof.C p) (cashu.Proof.Witness p) q))
